@@ -102,6 +102,9 @@ pub struct Ev<'a> {
     /// soundness side-table: every counting node (rule, pos, negated)
     pub counting: Vec<(u16, usize, bool)>,
     pub record_counting: bool,
+    /// every rule entry (name, position) in evaluation order, built-ins and implicit
+    /// WHITESPACE/COMMENT attempts included (C17's reference for "the entries of the parse")
+    pub trace: Option<Vec<(String, usize)>>,
 }
 
 pub fn is_builtin(n: &str) -> bool {
@@ -115,7 +118,7 @@ pub fn is_builtin(n: &str) -> bool {
 
 impl<'a> Ev<'a> {
     pub fn new(g: &'a Gm, input: &'a str) -> Ev<'a> {
-        Ev { g, input, active: vec![], fuel: FUEL, capped: false, acc_p: 0, entries: vec![], counting: vec![], record_counting: false }
+        Ev { g, input, active: vec![], fuel: FUEL, capped: false, acc_p: 0, entries: vec![], counting: vec![], record_counting: false, trace: None }
     }
 
     /// Parse `rule` from the start of the input.
@@ -301,6 +304,9 @@ impl<'a> Ev<'a> {
     }
 
     pub fn call(&mut self, n: &str, s: St) -> R {
+        if let Some(t) = &mut self.trace {
+            t.push((n.to_string(), s.p));
+        }
         if !self.tick() {
             return R::D;
         }
